@@ -4,7 +4,7 @@ import json, os
 import vlib
 from vlib import tlc, vh_to_file, trace_validate, workdir, Infra
 
-CFG = "SPECIFICATION Spec\nCONSTANTS N = %d\nLoop = %s\nFrags = {0, 1, 2, 3, 99}\nMaxPat = %d\nINVARIANTS ScheduleIndependent FailsIffObserved\nPROPERTIES Terminates\nCHECK_DEADLOCK FALSE\n"
+CFG = "SPECIFICATION Spec\nCONSTANTS N = %d\nLoop = %s\nFrags = {0, 1, 2, 3, 99}\nMaxPat = %d\nRetry = FALSE\nINVARIANTS ScheduleIndependent FailsIffObserved RetryTransparent\nPROPERTIES Terminates\nCHECK_DEADLOCK FALSE\n"
 
 
 def reader_faults(rep, pid, parsers, tier):
@@ -13,6 +13,9 @@ def reader_faults(rep, pid, parsers, tier):
     n, mp = (5, 3) if tier == "quick" else (6, 3)
     r = tlc("MC_ReaderFaults", CFG % (n, "TRUE", mp), pid + "/rfmc", timeout=3000)
     rep.add_tlc("MC_ReaderFaults", r)
+    # a caller that repeats a request which failed without consuming anything never notices a passing failure between requests
+    r2 = tlc("MC_ReaderFaults", (CFG % (n, "TRUE", 2)).replace("Retry = FALSE", "Retry = TRUE"), pid + "/rfretry", timeout=3000)
+    rep.add_tlc("MC_ReaderFaults:retry", r2)
     # the model must refute a consumer that issues a single Read per request
     try:
         tlc("MC_ReaderFaults", (CFG % (4, "FALSE", 2)).replace("PROPERTIES Terminates\n", ""), pid + "/rfneg", timeout=3000, tags=())
